@@ -233,11 +233,14 @@ pub fn binding<S: MlDsa>(seed: u64, nbase: usize, out: &mut Out) {
     let mut p = Prng::new(seed, 0x0600 + S::SET as u64);
     let mut w = World::<S>::new(out);
     let (hp, hs) = w.keygen_seed(&p.arr32());
-    for b in 0..nbase {
-        let mode = MODES[b % 4];
-        let ctx = p.bytes([5usize, 0, 31, 254, 255, 1][b % 6]);
+    for b in 0..nbase + 2 {
+        // the first two bases are pure-mode signatures with an EMPTY context over a long message: the only shape whose
+        // formatted input coincides with that of a 256-byte (resp. 512-byte) context if the length byte were allowed to wrap
+        let special = b < 2;
+        let mode = if special { "pure" } else { MODES[b % 4] };
+        let ctx = if special { vec![] } else { p.bytes([5usize, 0, 31, 254, 255, 1][b % 6]) };
         // pure-mode bases carry long messages so that splits needing a 256+ byte context (wrapped length byte) exist
-        let m = p.bytes(if mode == "pure" { [300usize, 600, 777][(b / 4) % 3] } else { [7usize, 600, 0, 3, 200, 300][b % 6] });
+        let m = p.bytes(if special { [300usize, 600][b] } else if mode == "pure" { [300usize, 600, 777][(b / 4) % 3] } else { [7usize, 600, 0, 3, 200, 300][b % 6] });
         let sig = w.sign(hs, &m, &ctx, mode, &p.arr32(), Fault::None).unwrap_or_default();
         let _ = w.verify(hp, &m, &ctx, mode, &sig);
         // every re-split of ctx || M (context at most 255 bytes), and splits that would need an over-long
